@@ -92,6 +92,14 @@ def build_lean(targets):
         return time.time() - t
 
 
+def extract_tables():
+    """regenerate lean/PortusModel/Generated/Tables.lean from /repo/src and libccp's headers (tools/extract_tables.py)"""
+    p = subprocess.run([sys.executable, os.path.join(VERIF, "tools", "extract_tables.py")], capture_output=True, text=True)
+    if p.returncode != 0:
+        raise Fail("extract_tables.py failed: " + (p.stdout + p.stderr)[-2000:])
+    return p.stderr
+
+
 def strip_comments(src):
     # remove /- ... -/ (nested) and -- line comments
     out = []
